@@ -24,6 +24,7 @@ WellFormed(NN, PP, post) ==
   LET KK(id) == IF id = 0 THEN "document" ELSE NN[id].k
       Kids(p) == SelectSeq([j \in 1..Len(PP) |-> j], LAMBDA j : PP[j] = p)
   IN /\ Len(NN) = Len(PP) /\ \A j \in 1..Len(PP) : PP[j] < j                               \* one parent, document order
+     /\ T.dups = 0                                                                           \* no node object occurs twice
      /\ \A j \in 1..Len(NN) : NN[j].k = "section" =>
           /\ KK(PP[j]) \in {"document", "section"}
           /\ Kids(j) # <<>> /\ NN[Kids(j)[1]].k = "title"
